@@ -19,6 +19,7 @@ type Finding struct {
 	Prop   string
 	Sig    string // canonical one-line description (matched against known findings)
 	Detail map[string]any
+	Tail   []string // event trace up to the moment of the finding
 }
 
 type rec struct {
@@ -39,18 +40,25 @@ type firstVote struct {
 	queued bool
 }
 
+type queuedKey struct {
+	sender gpbft.ActorID
+	round  uint64
+	phase  gpbft.Phase
+}
+
 // per participant, per instance shadow state
 type shadow struct {
-	input      *gpbft.ECChain
-	drainCall  uint64
-	quality    map[gpbft.ActorID]firstVote
-	prepare    map[uint64]map[gpbft.ActorID]firstVote
-	converge   map[uint64]map[gpbft.ActorID]firstVote
-	justified  map[gpbft.ECChainKey]bool
-	quorumSeen map[gpbft.ECChainKey]bool
-	prepEmit   map[uint64]*gpbft.ECChain // PREPARE value emitted per round
-	prepAt     map[uint64]time.Time
-	votes      map[sentKey]map[gpbft.ActorID]gpbft.ECChainKey // for quorum-of-votes coverage (h)
+	queuedSlots map[queuedKey]bool
+	input       *gpbft.ECChain
+	drainCall   uint64
+	quality     map[gpbft.ActorID]firstVote
+	prepare     map[uint64]map[gpbft.ActorID]firstVote
+	converge    map[uint64]map[gpbft.ActorID]firstVote
+	justified   map[gpbft.ECChainKey]bool
+	quorumSeen  map[gpbft.ECChainKey]bool
+	prepEmit    map[uint64]*gpbft.ECChain // PREPARE value emitted per round
+	prepAt      map[uint64]time.Time
+	votes       map[sentKey]map[gpbft.ActorID]gpbft.ECChainKey // for quorum-of-votes coverage (h)
 }
 
 type pstate struct {
@@ -134,7 +142,11 @@ func (m *Monitor) find(prop, sig string, detail map[string]any) {
 	if detail == nil {
 		detail = map[string]any{}
 	}
-	m.Findings = append(m.Findings, Finding{Prop: prop, Sig: sig, Detail: detail})
+	t := m.Tail()
+	if len(t) > 120 {
+		t = t[len(t)-120:]
+	}
+	m.Findings = append(m.Findings, Finding{Prop: prop, Sig: sig, Detail: detail, Tail: t})
 }
 
 func vstr(c *gpbft.ECChain) string {
@@ -401,7 +413,7 @@ func (m *Monitor) checkPrepare0(h *host, s *shadow, T *Table, val *gpbft.ECChain
 	}
 	if got < lo || got > hi {
 		m.find("C07", fmt.Sprintf("C07(e) round-0 PREPARE value is not the longest input prefix with a strong QUALITY quorum (got %s expected)", map[bool]string{true: "shorter than", false: "longer than"}[got < lo]),
-			map[string]any{"participant": h.i, "got_len": got, "expected_min": lo, "expected_max": hi, "input": vstr(s.input), "quality_votes": len(s.quality)})
+			map[string]any{"participant": h.i, "got_len": got, "expected_min": lo, "expected_max": hi, "input": vstr(s.input), "quality_votes": qualityDump(T, s), "total": T.PT.ScaledTotal})
 	}
 }
 
@@ -415,6 +427,9 @@ func (m *Monitor) checkPrepareLater(h *host, s *shadow, T *Table, round uint64, 
 	bestRank := math.Inf(1)
 	tie := false
 	for id, fv := range votes {
+		if !fv.chain.HasBase(s.input.Base()) {
+			continue // dropped at drain (wrong base)
+		}
 		r := gpbft.ComputeTicketRank(fv.ticket, power(T, id))
 		if r < bestRank {
 			best, bestRank, tie = fv.chain, r, false
@@ -442,6 +457,9 @@ func (m *Monitor) checkCommitBottom(h *host, s *shadow, T *Table, round uint64) 
 	var sup, voted int64
 	pk := prop.Key()
 	for id, fv := range s.prepare[round] {
+		if !fv.chain.IsZero() && !fv.chain.HasBase(s.input.Base()) {
+			continue // dropped at drain (wrong base)
+		}
 		p := power(T, id)
 		voted += p
 		if fv.chain.Key() == pk {
@@ -485,6 +503,21 @@ func (m *Monitor) preReceive(h *host, e *event, before gpbft.InstanceProgress, v
 		return
 	}
 	s := m.sh(h.i, v.Instance)
+	if queued {
+		// the future-instance queue keeps only the first message per (sender, round, phase) and
+		// applies the late-binding checks (base, supplemental data) only when it is drained: a
+		// queued message that is later dropped still occupies its slot
+		qk := queuedKey{msg.Sender, v.Round, v.Phase}
+		if s.queuedSlots == nil {
+			s.queuedSlots = map[queuedKey]bool{}
+		}
+		if !(v.Round > m.w.Sc.Opts.Lookahead && msg.Justification == nil && v.Round > 0) {
+			if s.queuedSlots[qk] {
+				return
+			}
+			s.queuedSlots[qk] = true
+		}
+	}
 	// late-binding checks (done by the participant on receipt / drain)
 	sd := m.w.SuppData(v.Instance)
 	if !v.SupplementalData.Eq(&sd) {
@@ -510,9 +543,14 @@ func (m *Monitor) preReceive(h *host, e *event, before gpbft.InstanceProgress, v
 	}
 	prior := !queued && v.Round < before.Round
 	fv := firstVote{chain: v.Value, ticket: msg.Ticket, queued: queued}
+	// A queued vote whose base turns out to be wrong is dropped when the queue is drained (the base
+	// of a future instance is unknown while it is queued); a later live vote of that sender counts.
+	stale := func(old firstVote) bool {
+		return old.queued && !queued && s.input != nil && !old.chain.IsZero() && !old.chain.HasBase(s.input.Base())
+	}
 	switch v.Phase {
 	case gpbft.QUALITY_PHASE:
-		if _, ok := s.quality[msg.Sender]; !ok {
+		if old, ok := s.quality[msg.Sender]; !ok || stale(old) {
 			s.quality[msg.Sender] = fv
 		}
 	case gpbft.PREPARE_PHASE:
@@ -522,7 +560,7 @@ func (m *Monitor) preReceive(h *host, e *event, before gpbft.InstanceProgress, v
 		if s.prepare[v.Round] == nil {
 			s.prepare[v.Round] = map[gpbft.ActorID]firstVote{}
 		}
-		if _, ok := s.prepare[v.Round][msg.Sender]; !ok {
+		if old, ok := s.prepare[v.Round][msg.Sender]; !ok || stale(old) {
 			s.prepare[v.Round][msg.Sender] = fv
 		}
 	case gpbft.CONVERGE_PHASE:
@@ -532,7 +570,7 @@ func (m *Monitor) preReceive(h *host, e *event, before gpbft.InstanceProgress, v
 		if s.converge[v.Round] == nil {
 			s.converge[v.Round] = map[gpbft.ActorID]firstVote{}
 		}
-		if _, ok := s.converge[v.Round][msg.Sender]; !ok {
+		if old, ok := s.converge[v.Round][msg.Sender]; !ok || stale(old) {
 			s.converge[v.Round][msg.Sender] = fv
 		}
 	}
@@ -787,4 +825,20 @@ func (m *Monitor) onEnd() {
 			}
 		}
 	}
+}
+
+func qualityDump(T *Table, s *shadow) []string {
+	var out []string
+	for id, fv := range s.quality {
+		match := 0
+		for l := s.input.Len() - 1; l >= 1; l-- {
+			if fv.chain.HasPrefix(s.input.Prefix(l)) {
+				match = l
+				break
+			}
+		}
+		out = append(out, fmt.Sprintf("sender=%d power=%d value=%s matches_input_prefix_len=%d queued=%v", id, power(T, id), vstr(fv.chain), match, fv.queued))
+	}
+	sort.Strings(out)
+	return out
 }
